@@ -42,6 +42,7 @@ type Plan struct {
 	Crash   *CrashPlan  `json:"crash,omitempty"`
 	Corrupt []CorruptOp `json:"corrupt,omitempty"`
 	Atom    *AtomPlan   `json:"atom,omitempty"`
+	Net     *NetPlan    `json:"net,omitempty"`
 }
 
 // Engine implements sim.Engine.
@@ -111,6 +112,8 @@ func (Engine) Draw(rt *rapid.T, prop, tier string) any {
 		return drawC04(rt, p, tier)
 	case "C06":
 		return drawC06(rt, p, tier)
+	case "C19", "C07", "C17":
+		return drawNet(rt, p, prop, tier)
 	}
 	p.Blocks = drawBlocks(rt, 2, maxB, p.Proto.P2PSig)
 	nrep := rapid.IntRange(1, 3).Draw(rt, "nrep")
@@ -186,6 +189,8 @@ func (Engine) Run(t *testing.T, prop string, planAny any) *sim.Outcome {
 			r.runC04()
 		case "C06":
 			r.runC06()
+		case "C19", "C07", "C17":
+			r.runNet()
 		default:
 			r.runReplicated()
 		}
@@ -245,6 +250,9 @@ func (r *run) bootstrapTxs() []*transaction.Transaction {
 			r.prod.nonce++
 			tx.Nonce = r.prod.nonce
 			tx.ValidUntilBlock = r.P.BC.BlockHeight() + 1
+			if r.plan.Net != nil {
+				tx.ValidUntilBlock += 8
+			}
 			r.prod.finishTx(tx, []neotest.Signer{v})
 			txs = append(txs, tx)
 		}
